@@ -431,13 +431,14 @@ struct Builder {
     used_flt: Vec<bool>,
     n_closures: usize,
     leaf_amp: f64,
+    /// float formats have no full scale: amplitudes and thresholds beyond 1.0 are legitimate
+    is_float: bool,
 }
 
-const MAX_AMP: f64 = 0.9;
-
 impl Builder {
-    fn new(nm: usize, ns: usize, nf: usize, leaf_amp: f64) -> Self {
+    fn new(nm: usize, ns: usize, nf: usize, leaf_amp: f64, is_float: bool) -> Self {
         Builder {
+            is_float,
             stack: Vec::new(),
             used_main: vec![false; nm],
             used_sgn: vec![false; ns],
@@ -512,19 +513,19 @@ impl Builder {
                         (Node::Scale(inner, q), amp * (q.abs() as f64 / 8.0))
                     }
                     B_OFFSET => {
-                        let q = arg.clamp(-512, 512);
+                        let q = if self.is_float { arg.clamp(-4096, 4096) } else { arg.clamp(-512, 512) };
                         (Node::Offset(inner, q), amp + q.abs() as f64 / 1024.0)
                     }
                     B_SCALE_PC => (Node::ScalePc(inner, arg.clamp(0, 1000)), amp),
                     B_OFFSET_PC => (Node::OffsetPc(inner, arg.clamp(0, 1000)), amp + 0.126),
                     B_CLIP => {
-                        let q = arg.clamp(0, 1000);
+                        let q = if self.is_float { arg.clamp(0, 8192) } else { arg.clamp(0, 1000) };
                         (Node::Clip(inner, q), amp.min(q as f64 / 1024.0 + 1e-9))
                     }
                     B_DELAY => (Node::Delay(inner, arg.clamp(0, 12) as u64), amp),
                     _ => return false,
                 };
-                if namp > MAX_AMP {
+                if namp > if self.is_float { 64.0 } else { 0.9 } {
                     // un-use leaves taken by a rejected op
                     match node {
                         Node::Add(_, j) => self.used_sgn[j] = false,
@@ -575,10 +576,10 @@ fn gen_build(r: &mut Rng, g: &mut Gen) -> Op {
         B_LEAF => Op::ka(k, r.range(0, g.nm as i64 - 1)),
         B_ADD => Op::ka(k, r.range(0, g.ns.max(1) as i64 - 1)),
         B_MUL => Op::ka(k, r.range(0, g.nf.max(1) as i64 - 1)),
-        B_SCALE => Op::ka(k, *r.pick(&[-16, -8, -4, -3, -1, 0, 1, 2, 3, 4, 8, 12, 16])),
-        B_OFFSET => Op::ka(k, r.range(-300, 300)),
+        B_SCALE => Op::ka(k, *r.pick(&[-16, -8, -4, -3, -1, 0, 1, 2, 3, 4, 8, 12, 16, 16, 16])),
+        B_OFFSET => Op::ka(k, if r.chance(1, 4) { r.range(-3000, 3000) } else { r.range(-300, 300) }),
         B_SCALE_PC | B_OFFSET_PC => Op::ka(k, r.range(0, 1000)),
-        B_CLIP => Op::ka(k, *r.pick(&[0, 1, 4, 16, 64, 200, 512, 900])),
+        B_CLIP => Op::ka(k, *r.pick(&[0, 1, 4, 16, 64, 200, 512, 900, 1024, 1500, 2048, 8192])),
         B_DELAY => Op::ka(k, r.range(0, 6)),
         _ => Op::k(k),
     }
@@ -729,7 +730,7 @@ pub fn run_tree<F: AdFrame>(flavor: Flavor, src: &mut Source, obs: &mut Observer
     let mut first_epoch = true;
     'epochs: loop {
         // ---------------- build phase ----------------
-        let mut b = Builder::new(nm, ns, nf, leaf_amp);
+        let mut b = Builder::new(nm, ns, nf, leaf_amp, F::IS_FLOAT);
         g.build_left = -1;
         let first_run_op: Option<Op> = loop {
             let op = match pending.take() {
@@ -1171,7 +1172,7 @@ impl<F: AdFrame> Composition<F> {
             lv.sgn.push(ProbeSignal::with(8 + j + 16 * shift, Some(r.range(0, 80) as u64), F::sleaf as fn(u32, u64) -> F::SF).0);
             lv.flt.push(ProbeSignal::with(12 + j, None, F::fleaf as fn(u32, u64) -> F::FF).0);
         }
-        let mut b = Builder::new(3, 2, 2, 1.0 / (1u64 << shift) as f64);
+        let mut b = Builder::new(3, 2, 2, 1.0 / (1u64 << shift) as f64, F::IS_FLOAT);
         let mut g = Gen {
             flavor: Flavor::Adaptors,
             steps: 0,
